@@ -43,8 +43,12 @@ class ProgGen:
 
     def test(self, depth=1, loop=False):
         """loop=True: the test must consult the oracle (otherwise a loop could spin forever)."""
+        def progresses(t):
+            # the leftmost operand is evaluated on every iteration: it must consult the oracle
+            return t.lstrip("(").startswith(("ext(", "not ext(", "tup(ext("))
+
         t = self._test(depth)
-        while loop and "ext(" not in t:
+        while loop and not progresses(t):
             t = self._test(depth)
         return t
 
@@ -171,9 +175,13 @@ def run_under(fn_code, name, decisions, max_calls=400):
         return (x,)
 
     env = {"ext": ext, "seq": seq, "tup": tup}
-    exec(fn_code, env)
+    if callable(fn_code):
+        fn = fn_code(env)          # a factory: environment -> callable(a, b)
+    else:
+        exec(fn_code, env)
+        fn = env[name]
     try:
-        r = env[name](0, 1)
+        r = fn(0, 1)
         return events, ("return", r), pos[0]
     except NeedMore:
         raise
@@ -202,10 +210,61 @@ def all_paths(fn_code, name, values=(0, 1, 2), max_paths=600, max_len=14):
     return out
 
 
+def cfg_factory(blocks):
+    """Interpret a front-end CFG block by block: run the block's statements; with
+    two successors evaluate its last expression and take the first if true,
+    else the second; stop at a return.  blocks: name -> (ast nodes, targets)."""
+    comp = {}
+    for name, (ins, jt) in blocks.items():
+        body = ins[:-1] if len(jt) == 2 else ins
+        steps = []
+        for i in body:
+            if isinstance(i, ast.Return):
+                v = i.value if i.value is not None else ast.Constant(None)
+                steps.append(("ret", compile(ast.fix_missing_locations(ast.Expression(v)), "<cfg>", "eval")))
+            elif isinstance(i, ast.stmt):
+                steps.append(("exec", compile(ast.fix_missing_locations(
+                    ast.Module(body=[i], type_ignores=[])), "<cfg>", "exec")))
+            else:
+                steps.append(("eval", compile(ast.fix_missing_locations(ast.Expression(i)), "<cfg>", "eval")))
+        test = None
+        if len(jt) == 2:
+            t = ins[-1]
+            t = t.value if isinstance(t, ast.Expr) else t
+            test = compile(ast.fix_missing_locations(ast.Expression(t)), "<cfg>", "eval")
+        comp[name] = (steps, test, list(jt))
+    entry = next(iter(blocks))
+
+    def factory(env):
+        def fn(a, b):
+            loc = {"a": a, "b": b}
+            cur = entry
+            for _ in range(100000):
+                steps, test, jt = comp[cur]
+                for kind, code in steps:
+                    if kind == "ret":
+                        return eval(code, env, loc)
+                    if kind == "exec":
+                        exec(code, env, loc)
+                    else:
+                        eval(code, env, loc)
+                if test is not None:
+                    cur = jt[0] if eval(test, env, loc) else jt[1]
+                elif jt:
+                    cur = jt[0]
+                else:
+                    return None
+            raise RecursionError("step budget")
+        return fn
+
+    return factory
+
+
 def compare_functions(src_a, name_a, src_b, name_b, **kw):
-    """Run both under every decision list the first one asks for.  Returns None or a witness."""
-    ca = compile(src_a, "<original>", "exec")
-    cb = compile(src_b, "<other>", "exec")
+    """Run both under every decision list the first one asks for.  Returns a witness
+    (dict) or (None, number of paths).  src_b may be source text or a factory."""
+    ca = src_a if callable(src_a) else compile(src_a, "<original>", "exec")
+    cb = src_b if callable(src_b) else compile(src_b, "<other>", "exec")
     paths = all_paths(ca, name_a, **kw)
     for d, ev, oc in paths:
         try:
